@@ -32,13 +32,15 @@ from ural.quote import (
     safely_quote_qsl,
     upper_quoted,
 )
-from ural.patterns import PROTOCOL_RE, CONTROL_CHARS_RE
+from ural.patterns import PROTOCOL_RE, CONTROL_CHARS_RE, ASCII_FLAG
 from ural.facebook import is_facebook_url, parse_facebook_url
 from ural.youtube import is_youtube_url, normalize_youtube_url
 
 IRRELEVANT_QUERY_PATTERN = r"^(?:__twitter_impression|_guc_consent_skip|guccounter|fb_action_types|(?:php|asp|j)?sessionid|fb_action_ids|fb_source|echobox|feature|recruiter|_unique_id|twclid|mibextid|campaignid|adgroupid|cn-reloaded|ao_noptimize|mkt_tok|fbclid|igshid|refid|gclid|mc_cid|mc_eid|__tn__|_ft_|dclid|wpamp|fref|usqp|ncid|mtm_.+|utm_.+%s|s?een|cftoken|cfid|sid|xt(?:loc|ref|cr|np|or|s)|at_.+|_ga)$"
 
 # NOTE: only whole labels must match, "\b" would also match after an hyphen
+# NOTE: those patterns are compiled as ascii ones, else "\d" matches any
+# unicode digit and re.I folds letters such as "\u017f" onto ascii ones
 IRRELEVANT_SUBDOMAIN_PATTERN = r"(?:^|(?<=\.))(?:www\d?|mobile%s|m)\."
 
 AMP_QUERY_PATTERN = r"|amp_.+|amp"
@@ -49,12 +51,16 @@ AMP_SUFFIXES_RE = re.compile(
     r"(?:(?<=[^./])\.amp(?=\.html$)|(?<=[^./])\.amp/?$|(?<=/)amp/?$)", re.I
 )
 
-IRRELEVANT_QUERY_RE = re.compile(IRRELEVANT_QUERY_PATTERN % r"", re.I)
-IRRELEVANT_SUBDOMAIN_RE = re.compile(IRRELEVANT_SUBDOMAIN_PATTERN % r"", re.I)
+IRRELEVANT_QUERY_RE = re.compile(IRRELEVANT_QUERY_PATTERN % r"", re.I | ASCII_FLAG)
+IRRELEVANT_SUBDOMAIN_RE = re.compile(
+    IRRELEVANT_SUBDOMAIN_PATTERN % r"", re.I | ASCII_FLAG
+)
 
-IRRELEVANT_QUERY_AMP_RE = re.compile(IRRELEVANT_QUERY_PATTERN % AMP_QUERY_PATTERN, re.I)
+IRRELEVANT_QUERY_AMP_RE = re.compile(
+    IRRELEVANT_QUERY_PATTERN % AMP_QUERY_PATTERN, re.I | ASCII_FLAG
+)
 IRRELEVANT_SUBDOMAIN_AMP_RE = re.compile(
-    IRRELEVANT_SUBDOMAIN_PATTERN % AMP_SUBDOMAIN_PATTERN, re.I
+    IRRELEVANT_SUBDOMAIN_PATTERN % AMP_SUBDOMAIN_PATTERN, re.I | ASCII_FLAG
 )
 
 IRRELEVANT_QUERY_COMBOS = {
